@@ -69,6 +69,11 @@ def job_lines(rng, n):
             out.append(rng.choice(["M117 Layer %d/%d", "M23 /models/part%d_%d.gco", "M117 %d*%d grid done", "M118 E1 step %d / %d"])
                        % (i + 1, rng.randint(2, 9)) + tail)
             continue
+        if rng.random() < 0.12:
+            # runs of blanks and tabs inside a command (added after seed C15i: the text was normalised on the wire after its
+            # checksum had been computed): the firmware is to receive the bytes the checksum was computed over
+            out.append(rng.choice(["G1  X%d   Y%d", "G1\tX%d\tY%d", "G1 X%d  Y%d F300"]) % (i + 1, rng.randint(0, 9)) + tail)
+            continue
         out.append(rng.choice(["G1 X%d Y%d", "G0 Z%d.%d", "M104 S%d%d"]) % (i + 1, rng.randint(0, 9)) + tail)
     if rng.random() < 0.3:
         out.append(";end")
